@@ -80,7 +80,7 @@ def scan_lets(body: str):
     """`let [mut] name[: type] = rhs;` bindings of a function body -> {name: rhs} (top-level scan,
     tolerant of `;` / `=` inside the type, e.g. `let xs: [&[u8]; 2] = [..];`)"""
     lets = {}
-    for m in re.finditer(r"\blet\s+(?:mut\s+)?(\w+)\s*", body):
+    for m in re.finditer(r"\b(?:let\s+(?:mut\s+)?|const\s+)(\w+)\s*", body):
         k = m.end()
         depth = 0
         if k < len(body) and body[k] == ":":
@@ -113,6 +113,32 @@ def resolve(expr: str, lets, depth=0):
     return e
 
 
+def lit_bytes(expr: str, lets):
+    """bytes of `b"…"`, of `"…".as_bytes()`, or of a function-local `let` / `const` bound to one of
+    them (`NAME`, `NAME.as_bytes()`); None if the expression is not such a literal"""
+    e = resolve(expr, lets)
+    m = re.fullmatch(r'\s*&?\s*b"([^"\\]*)"\s*', e)
+    if m:
+        return m.group(1).encode()
+    m = re.fullmatch(r'\s*(.+?)\s*\.as_bytes\(\)\s*', e, flags=re.S)
+    if m:
+        inner = resolve(m.group(1), lets)
+        mm = re.fullmatch(r'\s*"([^"\\]*)"\s*', inner)
+        if mm:
+            return mm.group(1).encode()
+    return None
+
+
+def expand_receiver(e: str, lets, depth=0):
+    """`x.as_bytes()` with `let x = self.key.id()?;` -> `self.key.id()?.as_bytes()`"""
+    m = re.match(r"(&?\s*)(\w+)(\s*[.\[].*)$", e.strip(), flags=re.S)
+    # (a `let x = f(x);` that shadows a parameter is not an alias: keep the name)
+    if m and m.group(2) in lets and m.group(2) != "self" and depth < 4 \
+            and not re.search(r"\b" + re.escape(m.group(2)) + r"\b", lets[m.group(2)]):
+        return expand_receiver(m.group(1) + resolve(lets[m.group(2)], lets) + m.group(3), lets, depth + 1)
+    return e
+
+
 def _unparen(e: str) -> str:
     # parentheses introduced by parameter substitution around simple operands
     prev = None
@@ -130,7 +156,16 @@ def fn_params(src: str, name: str, rel: str):
     p = src.find("(", m.end())
     inner = src[p + 1:balanced(src, p) - 1]
     out = []
-    for a in split_top_raw(inner):
+    parts, depth, cur = [], 0, ""
+    for ch in inner:  # also `<…>` nests here (`&Sender<'_, CS>`)
+        if ch in "([{<": depth += 1
+        elif ch in ")]}>": depth -= 1
+        if ch == "," and depth == 0:
+            parts.append(cur); cur = ""
+        else:
+            cur += ch
+    parts.append(cur)
+    for a in parts:
         a = a.strip()
         if not a or re.fullmatch(r"&?\s*(?:'\w+\s+)?(?:mut\s+)?self", a):
             continue
@@ -181,9 +216,8 @@ def _tag_items(args, lets, rel, callee, subst=None):
     if len(args) < 2:
         raise Fail(f"{rel}: {callee}: expected (tag, items)")
     sub = subst or (lambda e: e)
-    tag = sub(resolve(sub(args[0]), lets))
-    mt = re.fullmatch(r'\s*b"([^"\\]*)"\s*', tag)
-    if not mt:
+    tagb = lit_bytes(sub(resolve(sub(args[0]), lets)), lets)
+    if tagb is None:
         raise Fail(f"{rel}: {callee}: tag is not (or does not resolve to) a byte-string literal: {args[0].strip()!r}")
     arr = resolve(args[1], lets)
     if not (arr.startswith("[") and arr.endswith("]")):
@@ -192,14 +226,15 @@ def _tag_items(args, lets, rel, callee, subst=None):
     for it in split_top_raw(arr[1:-1]):
         if not it.strip():
             continue
-        e = sub(resolve(it, lets))
+        e = sub(expand_receiver(resolve(it, lets), lets))
         items.append(re.sub(r"\s+", "", e))
-    return mt.group(1).encode(), items
+    return tagb, items
 
 
 def call_args(body: str, callee: str, rel: str, nth=0, src=None, fn_name=None):
     """(tag bytes, [normalised item expressions]) of the nth `callee(tag, items)` reachable from
-    `body`.  Tolerated refactors: `tag` / `items` / single items bound to locals by `let`; the call
+    `body`.  Tolerated refactors: `tag` / `items` / single items / item receivers bound to function-local
+    `let` or `const` (byte-string or `&str` + `.as_bytes()`); the call
     moved into ONE level of helper function of the same file (pass `src`), with tag and items
     forwarded positionally from the caller (parameters are substituted by the caller's arguments,
     so the item expressions come out as if written inline)."""
